@@ -264,6 +264,18 @@ def probes1():
     evs = [("send", 0, 0, False, [12]), ("stop", None), ("send", 1, 0, False, [12])]
     out.append(("F-C01-4", "send_messages() after stop() queued the request: its Deferred never fired", cfg, evs,
                 lambda oc: oc.get(1) == [(0, PL.K_CANCEL, 0, 0, 0)]))
+    # (seeded C01-m7) one batch: a send to a topic whose metadata keeps failing - its lookups use up the whole attempt
+    # quota - and a send to a routable topic whose leader answers NOT_ENOUGH_REPLICAS for ever: the attempt counter is
+    # past the limit when the first produce request fails, the send must FAIL then (one produce request), not retry
+    cfg = dict(acks=1, batch=True, n=2, b=0, t=None, max=2, api=1, codec=None, retry_interval=0.25, partitioner="rr",
+               ntop=2, nparts={0: 1, 1: 1}, cache=[(0, 0, True)], script={})
+    evs = [("send", 0, 1, False, [12]), ("send", 1, 0, False, [12]),
+           ("loaddone", 0, True, 0), ("timer", 0), ("loaddone", 1, True, 0), ("timer", 1), ("loaddone", 2, True, 0), ("timer", 2),
+           ("result", ("resp", [(0, 0, 19, -1)])), ("timer", 3), ("result", ("resp", [(0, 0, 19, -1)])), ("timer", 4),
+           ("result", ("resp", [(0, 0, 19, -1)])), ("timer", 5), ("result", ("resp", [(0, 0, 19, -1)]))]
+    out.append(("P-C01-attempts-past-limit", "attempt counter past the limit (metadata lookups of another send used up the quota): the batch is retried "
+                "beyond max_req_attempts instead of failing", cfg, evs,
+                lambda oc: len(oc.get(1, [])) == 1 and oc[1][0][0] == 0 and len(oc.get(0, [])) == 1))
     # F-C01-5 (known): handing the request to the client raises -> the batch ends, the send never fires.
     # Model event 13 (EBroken); Props/C01.v C01_resolved_when_quiescent_refuted_build_raises is this history.
     cfg = dict(acks=1, batch=False, n=1, b=1, t=None, max=3, api=1, codec=None, retry_interval=0.25, partitioner="rr",
